@@ -17,7 +17,7 @@ import vlib
 TAG = "x19"
 CFG = {
     "quick":    dict(mc="MC_ValueFill.cfg", gen="Gen_ValueFill.cfg", nsrc=60, nstore=24, steps=40, nmut=60, big=600),
-    "thorough": dict(mc="MC_ValueFill_t.cfg", gen="Gen_ValueFill_t.cfg", nsrc=500, nstore=200, steps=80, nmut=500, big=4000),
+    "thorough": dict(mc="MC_ValueFill_t.cfg", gen="Gen_ValueFill_t.cfg", nsrc=240, nstore=120, steps=80, nmut=300, big=2500),
 }
 FAULTS = ("Crash", "Hang", "Garbled", "Missing")
 HEXKEYS = ("desc", "pre")
@@ -81,6 +81,20 @@ def run(exes, behs, env, timeout=1200):
                 x["b"] = idx[x["b"]]
             recs.append(x)
     return recs
+
+
+def chunks_of(path, n):
+    """the BEHAV lines of a TLC dump in chunks of n"""
+    cur = []
+    with open(path, errors="replace") as f:
+        for ln in f:
+            if ln.startswith('<<"BEHAV", '):
+                cur.append(ln.rstrip("\n"))
+                if len(cur) >= n:
+                    yield cur
+                    cur = []
+    if cur:
+        yield cur
 
 
 def match(exp, obs, step=None, rec=None, prev=None):
@@ -429,45 +443,60 @@ def run_part(ck, tier):
             raise vlib.MachineryError("behaviour export failed: %s" % gen.error)
 
         vlib.log("x19: export done %.0fs" % gen.wall)
-        # binding A: every transition of the model replayed
-        behs = vlib.parse_behaviours(open(gpath, errors="replace").read())
-        os.unlink(gpath)
-        recs = run(exes, behs, env)
-        vlib.log("x19: drivers done")
-        mms = vlib.compare(behs, recs, match)
-        by = vlib.group_records(recs)
+        # binding A: every transition of the model replayed (the dump is worked through in chunks: bounded memory)
         nt = set()
-        for b, beh in enumerate(behs):
-            if nontrivial(by.get(b, [])):
-                nt.add(json.dumps([(s["a"], s.get("arg")) for s in beh], sort_keys=True))
         per_sig = {}
-        for mm in mms:
-            sig = signature(behs[mm["b"]], mm["i"], mm["rec"], mm["why"])
-            per_sig[sig] = per_sig.get(sig, 0) + 1
-            if per_sig[sig] <= 1:
-                ck.violation(sig, {"binding": "A(replay)", "x19": True, "behaviour": behs[mm["b"]], "step": mm["i"],
-                                   "why": mm["why"], "record": mm["rec"]})
-        ck.cov["evaluations"] += len(behs)
-        notes["behaviours_replayed"] = len(behs)
-        notes["behaviours_by_family"] = {}
-        for beh in behs:
-            s = src_of(beh)
-            k = "%s/%s" % (s.get("fam"), s.get("drv"))
-            notes["behaviours_by_family"][k] = notes["behaviours_by_family"].get(k, 0) + 1
-        notes["replay_mismatches"] = len(mms)
+        fam = {}
+        nbeh = nmm = 0
+        unp_behs, unp_recs = [], []
+        mid_sample = None
+        for lines in chunks_of(gpath, 12000):
+            behs = vlib.parse_behaviours("\n".join(lines))
+            recs = run(exes, behs, env)
+            mms = vlib.compare(behs, recs, match)
+            by = vlib.group_records(recs)
+            bad = set()
+            for mm in mms:
+                bad.add(mm["b"])
+                sig = signature(behs[mm["b"]], mm["i"], mm["rec"], mm["why"])
+                per_sig[sig] = per_sig.get(sig, 0) + 1
+                if per_sig[sig] <= 1:
+                    ck.violation(sig, {"binding": "A(replay)", "x19": True, "behaviour": behs[mm["b"]], "step": mm["i"],
+                                       "why": mm["why"], "record": mm["rec"]})
+            for b, beh in enumerate(behs):
+                s_ = src_of(beh)
+                k = "%s/%s" % (s_.get("fam"), s_.get("drv"))
+                fam[k] = fam.get(k, 0) + 1
+                if nontrivial(by.get(b, [])):
+                    nt.add(vlib.hashlib.md5(json.dumps([(st["a"], st.get("arg")) for st in beh], sort_keys=True).encode()).digest()[:8])
+                # values the design does not predict exactly (thirds, tenths): the meaning decides within the tolerance
+                if b not in bad and unpredicted(beh):
+                    j = len(unp_behs)
+                    unp_behs.append(beh)
+                    unp_recs += [dict(r, b=j) for r in by.get(b, [])]
+            if mid_sample is None and behs:
+                mid_sample = vlib.sample_repr(behs[len(behs) // 2], 8)
+            nbeh += len(behs)
+            nmm += len(mms)
+            if sum(1 for r in recs if r.get("a") == "Hang") >= 3:
+                notes["replay_cut_short"] = "hangs pile up; %d behaviours replayed" % nbeh
+                break
+        os.unlink(gpath)
+        vlib.log("x19: drivers done")
+        ck.cov["evaluations"] += nbeh
+        notes["behaviours_replayed"] = nbeh
+        notes["behaviours_by_family"] = fam
+        notes["replay_mismatches"] = nmm
         notes["replay_mismatch_kinds"] = per_sig
-        # values the design does not predict exactly (thirds, tenths): the meaning decides within the tolerance
-        bad = {mm["b"] for mm in mms}
-        unp = [b for b, beh in enumerate(behs) if b not in bad and unpredicted(beh)]
-        if unp:
-            sub = [behs[b] for b in unp]
-            subrecs = [dict(r, b=j) for j, b in enumerate(unp) for r in by.get(b, [])]
-            notes["tolerance_checked_behaviours"] = len(unp)
-            notes["tolerance_checked_events"] = validate(ck, sub, subrecs, "Trace_ValueFill-T", "A(tolerance)")
-        vlib.log("x19: replayed %d behaviours, %d differ, %d with unpredicted values" % (len(behs), len(mms), len(unp)))
+        if unp_behs:
+            notes["tolerance_checked_behaviours"] = len(unp_behs)
+            notes["tolerance_checked_events"] = validate(ck, unp_behs, unp_recs, "Trace_ValueFill-T", "A(tolerance)")
+        vlib.log("x19: replayed %d behaviours, %d differ, %d with unpredicted values" % (nbeh, nmm, len(unp_behs)))
+        behs = recs = by = None
 
         # binding B: seeded sources (script by TLC + random consumer calls), store histories, mutated files
         gf = fgf.result()
+        vlib.log("x19: seeded scenarios scripted by TLC in %.0fs" % gf.wall)
         if gf.error or gf.violation:
             raise vlib.MachineryError("behaviour export (seeded sources) failed: %s %s" % (gf.error, gf.violation))
         os.unlink(spath)
@@ -498,10 +527,11 @@ def run_part(ck, tier):
         hrecs = run(exes, hist + muts, env)
         vlib.log("x19: %d histories recorded" % (len(hist) + len(muts)))
         nev = validate(ck, hist + muts, hrecs, "Trace_ValueFill-B", "B(trace)")
+        vlib.log("x19: traces validated")
         byh = vlib.group_records(hrecs)
         for b, beh in enumerate(hist):
             if nontrivial(byh.get(b, [])):
-                nt.add(json.dumps([(s["a"], s.get("arg")) for s in beh], sort_keys=True))
+                nt.add(vlib.hashlib.md5(json.dumps([(s["a"], s.get("arg")) for s in beh], sort_keys=True).encode()).digest()[:8])
         ck.cov["traces_validated_against_impl"] += len(hist) + len(muts)
         ck.cov["evaluations"] += len(hist) + len(muts)
         ck.cov["distinct_nontrivial"] += len(nt)
@@ -518,8 +548,8 @@ def run_part(ck, tier):
                          "Non-trivial = at least two elements visited or stored and an end / refusal / further cycle seen." % cfg["steps"])
         ck.add_tlc(fmc.result(), "exhaustive " + cfg["mc"])
         pool.shutdown()
-        if behs:
-            ck.cov["samples"] = ck.cov.get("samples", []) + [vlib.sample_repr(behs[len(behs) // 2], 8)]
+        if mid_sample:
+            ck.cov["samples"] = ck.cov.get("samples", []) + [mid_sample]
         ck.assumptions += ["x19: drv/valuefill.c, drv/valuefill_cxx.cpp project without judgement (classes of return values, doubles "
                            "logged exactly, what the query interface reports after every store call); they walk sources with the "
                            "documented loop where the library has no consumer of its own",
